@@ -19,8 +19,9 @@ PROP = "C06"
 LEVEL = "exploration"
 RULE = ("One collector (garbage_collect with grace 1 h or 10 h) + 1-2 transactions (append, multi-append, delete_files; committing, retrying after losing a "
         "race, or rolling back) on local and conditional-write S3. A transaction may have done its append_data BEFORE the run (long-running load): its data "
-        "file is then aged 2 h, i.e. older than the grace period when it commits; nothing is aged during the run and grace is never 0, so 'grace exceeds the "
-        "duration of the run' holds by construction. Interleavings are owned by the deterministic scheduler: exhaustive single-preemption enumeration for "
+        "file is then aged 2 h, i.e. older than the grace period when it commits; a SLOW committer has every data file, manifest and manifest list it "
+        "completes before the collector's first step aged 2 h right after writing it (a stall longer than the grace period, shorter than the 24 h marker timeout, between any write and the commit point); "
+        "the base may hold a two-file manifest so that delete_files rewrites it. Grace is never 0. Interleavings are owned by the deterministic scheduler: exhaustive single-preemption enumeration for "
         "fixed scenarios and Hypothesis PCT schedules (<=3 change points) over generated ones. Oracle when all actors have finished: every file of every "
         "snapshot in the final metadata exists and verifies (independent reader), and the rows of every acknowledged transaction are readable; a collector "
         "raising GarbageCollectionAborted is acceptable. Non-trivial: the collector's metadata read, marker read and listings did not all fall on the same "
@@ -45,6 +46,15 @@ def run_case(case):
     with scratch_dir("c06") as d:
         world = c04.make_world(d, sc["world"])
         base = build_base(world, sc["nprior"])
+        if sc.get("multi_base"):
+            # one manifest holding two data files: deleting one of them REWRITES the manifest (partial delete)
+            with world.env():
+                tb = world.open()
+                with tb.new_transaction() as txb:
+                    txb.append_data([{"k": 50, "s": "mb1"}])
+                    txb.append_data([{"k": 51, "s": "mb2"}])
+                    txb.commit()
+            base = read_view(world.fs())
         # an old orphan so that the collector has something to do
         if world.kind == "local":
             p = os.path.join(world.root, "data", "orphan_old.parquet")
@@ -62,7 +72,30 @@ def run_case(case):
         marks = {"meta": None, "markers": None, "list": []}
         expected_rows = {}
 
+        seen_files = set(world.fs().list("data") + world.fs().list("metadata/manifests")) if sc.get("slow") else None
+        gc_started = [False]
+
         def on_event(sch, a, phase, label, target, info):
+            if a.name == "gc":
+                gc_started[0] = True
+            if seen_files is not None and not gc_started[0] and a.name != "gc" and phase == "after" and ("write" in label or "replace" in label or "put" in label):
+                # a SLOW committer: every data file / manifest / manifest list it completes BEFORE the collector starts is already
+                # 2 h old (older than the grace period, younger than the 24 h marker timeout) by the time it takes its next step.
+                # Files written after the collector has started stay fresh ('the grace period exceeds the duration of the run').
+                now = set(world.fs().list("data") + world.fs().list("metadata/manifests"))
+                for rel in now - seen_files:
+                    if rel.rsplit("/", 1)[-1].startswith(".tmp"):
+                        now.discard(rel)  # not a complete file yet: aged once it has its final name
+                        continue
+                    if world.kind == "local":
+                        tt = time.time() - 7200
+                        try:
+                            os.utime(os.path.join(world.root, rel), (tt, tt))
+                        except OSError:
+                            pass
+                    else:
+                        world.fake.age(7200, world.key_prefix + "/" + rel)
+                seen_files.update(now)
             if a.name != "gc" or phase != "before":
                 return
             if marks["meta"] is None and target.startswith("metadata/v") and ("read" in label or "get" in label):
@@ -128,6 +161,7 @@ def run_case(case):
 
         run = run_scheduled(world, make_actors, case["schedule"], seed=case.get("seed", 0), on_event=on_event)
         out["labels"] += [f"world:{sc['world']}"] + (["preaged-file"] if any(t.get("preaged") for t in sc["txs"]) else [])
+        out["labels"] += (["slow-committer"] if sc.get("slow") else []) + (["partial-manifest-delete"] if sc.get("multi_base") and any(t["op"] == "delete" for t in sc["txs"]) else [])
         if run.error is not None:
             out["violations"].append((f"scheduler/{type(run.error).__name__}", str(run.error)[:200]))
             return out
@@ -169,6 +203,8 @@ FIXED = [
     {"world": "s3cas", "nprior": 2, "txs": [{"op": "append", "preaged": True}]},
     {"world": "local", "nprior": 2, "txs": [{"op": "delete", "which": 0}, {"op": "append", "preaged": True}], "grace_ms": 36000000},
     {"world": "s3cas", "nprior": 1, "txs": [{"op": "append", "preaged": True, "end": "rollback"}, {"op": "append"}]},
+    {"world": "local", "nprior": 1, "multi_base": True, "slow": True, "txs": [{"op": "delete", "which": 1}]},
+    {"world": "local", "nprior": 1, "slow": True, "txs": [{"op": "multi"}, {"op": "append"}]},
 ]
 
 
@@ -206,7 +242,8 @@ def pct_case(draw):
     n = 1 + len(txs)
     order = draw(st.permutations(list(range(n))))
     pre = [[draw(st.integers(1, 200)), draw(st.integers(0, n - 1))] for _ in range(draw(st.integers(0, 3)))]
-    return {"kind": "sched", "sc": {"world": world, "nprior": draw(st.integers(1, 3)), "txs": txs, "grace_ms": draw(st.sampled_from([3600000, 36000000]))},
+    return {"kind": "sched", "sc": {"world": world, "nprior": draw(st.integers(1, 3)), "txs": txs, "grace_ms": draw(st.sampled_from([3600000, 36000000])),
+                                    "multi_base": draw(st.booleans()), "slow": draw(st.booleans())},
             "schedule": {"order": list(order), "preempt": sorted(pre)}, "seed": draw(st.integers(0, 3))}
 
 
